@@ -69,9 +69,12 @@ Section Arc.
     let rx_sqd := rx * rx in let ry_sqd := ry * ry in
     let tmp := (rx_sqd * (y1p * y1p)) + (ry_sqd * (x1p * x1p)) in
     ((rx_sqd * ry_sqd) - tmp) / tmp.
-  (* radical = 0 if np.isclose(radicand, 0) else sqrt(radicand) *)
-  Definition arc_radical (radicand : K) : K :=
-    if isclose0 radicand then k0 else sqrt_ T radicand.
+  (* radical = 0 if np.isclose(radicand, 0) else sqrt(radicand)          (fx = false: pinned code)
+     radical = 0 if (scaled or radicand <= 0) else sqrt(radicand)        (fx = true: repaired code,
+        where scaled records that the `if radius_check > 1` branch enlarged the radii) *)
+  Definition arc_radical (fx scaled : bool) (radicand : K) : K :=
+    if fx then (if scaled || (radicand <=? k0) then k0 else sqrt_ T radicand)
+    else (if isclose0 radicand then k0 else sqrt_ T radicand).
   (* if self.large_arc == self.sweep: cp = -radical*(rx*y1p/ry - 1j*ry*x1p/rx)
      else:                            cp =  radical*(rx*y1p/ry - 1j*ry*x1p/rx) *)
   Definition arc_cp (large sweep : bool) (radical : K) (r zp1 : Cplx K) : Cplx K :=
@@ -129,26 +132,34 @@ Section Arc.
     arc_scaled_radius (abs_radius radius) (arc_rc_of start radius rotation end_).
   Definition arc_radicand_of (start radius : Cplx K) (rotation : K) (end_ : Cplx K) : K :=
     arc_radicand (arc_radius_of start radius rotation end_) (arc_zp1_of start rotation end_).
-  Definition arc_cp_of (start radius : Cplx K) (rotation : K) (large sweep : bool) (end_ : Cplx K) :=
-    arc_cp large sweep (arc_radical (arc_radicand_of start radius rotation end_))
+  Definition arc_radical_of (fx : bool) (start radius : Cplx K) (rotation : K) (end_ : Cplx K) : K :=
+    arc_radical fx (k1 <? arc_rc_of start radius rotation end_) (arc_radicand_of start radius rotation end_).
+  Definition arc_cp_of (fx : bool) (start radius : Cplx K) (rotation : K) (large sweep : bool) (end_ : Cplx K) :=
+    arc_cp large sweep (arc_radical_of fx start radius rotation end_)
            (arc_radius_of start radius rotation end_) (arc_zp1_of start rotation end_).
-  Definition arc_u1_of (start radius : Cplx K) (rotation : K) (large sweep : bool) (end_ : Cplx K) :=
+  Definition arc_u1_of (fx : bool) (start radius : Cplx K) (rotation : K) (large sweep : bool) (end_ : Cplx K) :=
     cclip (arc_u1_raw (arc_radius_of start radius rotation end_) (arc_zp1_of start rotation end_)
-                      (arc_cp_of start radius rotation large sweep end_)).
-  Definition arc_u2_of (start radius : Cplx K) (rotation : K) (large sweep : bool) (end_ : Cplx K) :=
+                      (arc_cp_of fx start radius rotation large sweep end_)).
+  Definition arc_u2_of (fx : bool) (start radius : Cplx K) (rotation : K) (large sweep : bool) (end_ : Cplx K) :=
     cclip (arc_u2_raw (arc_radius_of start radius rotation end_) (arc_zp1_of start rotation end_)
-                      (arc_cp_of start radius rotation large sweep end_)).
+                      (arc_cp_of fx start radius rotation large sweep end_)).
 
-  (* Arc(start, radius, rotation, large_arc, sweep, end) *)
-  Definition arc_init (start radius : Cplx K) (rotation : K) (large sweep : bool)
+  (* Arc(start, radius, rotation, large_arc, sweep, end); fx selects the variant of the
+     radical rule (false = pinned code with the np.isclose snap) *)
+  Definition arc_init_v (fx : bool) (start radius : Cplx K) (rotation : K) (large sweep : bool)
              (end_ : Cplx K) : ArcP K :=
     let phi := arc_phi rotation in
     let rotm := arc_rotm phi in
-    let u1 := arc_u1_of start radius rotation large sweep end_ in
-    let u2 := arc_u2_of start radius rotation large sweep end_ in
+    let u1 := arc_u1_of fx start radius rotation large sweep end_ in
+    let u2 := arc_u2_of fx start radius rotation large sweep end_ in
     mkArcP start (arc_radius_of start radius rotation end_) rotation large sweep end_
-           (arc_center rotm (arc_cp_of start radius rotation large sweep end_) start end_)
+           (arc_center rotm (arc_cp_of fx start radius rotation large sweep end_) start end_)
            (arc_theta u1) (arc_adjust large sweep (arc_delta0 u1 u2)) phi rotm.
+
+  (* the pinned code (np.isclose snap); kept under the original name and signature for the
+     models of other properties that construct arcs *)
+  Definition arc_init (start radius : Cplx K) (rotation : K) (large sweep : bool)
+             (end_ : Cplx K) : ArcP K := arc_init_v false start radius rotation large sweep end_.
 
   (* the preconditions asserted by __init__ *)
   Definition arc_admissible (start radius : Cplx K) (end_ : Cplx K) : bool :=
@@ -177,11 +188,13 @@ Section Arc.
      angle = radians(self.theta + t*self.delta); phi = radians(self.rotation)
      k = (self.delta*pi/180)**n
      if n % 4 == 0 and n > 0:  return rx*cos(phi)*cos(angle) - ry*sin(phi)*sin(angle) + 1j*(...)
-        (NOTE: no factor k in this branch — that is what the code does)
+        (dfx = false, pinned code: NO factor k in this branch)
+                               return k*(rx*cos(phi)*cos(angle) - ... + 1j*(...))
+        (dfx = true, repaired code)
      elif n % 4 == 1: return k*(-rx*cos(phi)*sin(angle) - ry*sin(phi)*cos(angle) + 1j*(...))
      elif n % 4 == 2: ...  elif n % 4 == 3: ...  else: raise ValueError
      Python's % with a positive modulus is Z.modulo; None = raises. *)
-  Definition arc_deriv (P : ArcP K) (t : K) (n : Z) : option (Cplx K) :=
+  Definition arc_deriv (dfx : bool) (P : ArcP K) (t : K) (n : Z) : option (Cplx K) :=
     let angle := radians_ T (a_theta P + (t * a_delta P)) in
     let phi := radians_ T (a_rotation P) in
     let rx := re (a_radius P) in let ry := im (a_radius P) in
@@ -189,7 +202,8 @@ Section Arc.
     let cp := cos_ T phi in let sp := sin_ T phi in
     let ca := cos_ T angle in let sa := sin_ T angle in
     if Z.eqb (Z.modulo n 4%Z) 0%Z && Z.gtb n 0%Z then
-      Some (((rx * cp) * ca) - ((ry * sp) * sa), ((rx * sp) * ca) + ((ry * cp) * sa))
+      (if dfx then Some (k * (((rx * cp) * ca) - ((ry * sp) * sa)), k * (((rx * sp) * ca) + ((ry * cp) * sa)))
+       else Some (((rx * cp) * ca) - ((ry * sp) * sa), ((rx * sp) * ca) + ((ry * cp) * sa)))
     else if Z.eqb (Z.modulo n 4%Z) 1%Z then
       Some (k * ((((- rx) * cp) * sa) - ((ry * sp) * ca)),
             k * ((((- rx) * sp) * sa) + ((ry * cp) * ca)))
